@@ -30,8 +30,18 @@ def cal_thread(rng, c, nbase):
     L.append('cal solve %d' % sc.n)                                     # too early: fails
     L.append('cal make_vector %d 2 %s %s %s %s' % (c, vlib.d2h(sc.fvec[0] * 0.5), vlib.d2h(sc.fvec[-1] * 2), vlib.c2h(0.1), vlib.c2h(0.2)))
     L.append('cal make_unknown %d 3' % c)
+    L.append('cal make_correlated %d 4 2 N %s %s' % (c, vlib.d2h(0.1), vlib.d2h(0.2)))      # sigma frequencies borrowed through the unknown from the vector
+    L.append('cal make_correlated %d 5 1 N %s' % (c, vlib.d2h(0.1)))
     L.append('cal delete_parameter %d 3' % c)                           # still referenced by the unknown
+    # measurement-error model: set, cleared, set again, at arbitrary points of the life of the vnacal_new_t
+    merr = ['cal new_set_m_error %d 1 N S %s N' % (sc.n, vlib.d2h(1e-4)), 'cal new_set_m_error %d 1 N N N' % sc.n,
+            'cal new_set_m_error %d 2 F %s %s S %s %s T %s %s' % (sc.n, vlib.d2h(sc.fvec[0] * 0.9), vlib.d2h(sc.fvec[-1] * 1.1), vlib.d2h(1e-4), vlib.d2h(2e-4), vlib.d2h(1e-3), vlib.d2h(1e-3))]
     sc.solt(variety=rng)
+    if rng.random() < 0.7:
+        k = rng.randint(1, 3)
+        pos = sorted(rng.randint(3, len(L)) for _ in range(k))
+        for j, p_ in enumerate(pos):
+            L.insert(p_ + j, merr[j])
     bad = c11.sweep_cases(rng, '/tmp')[0][3][2]                          # the invalid vnacal calls of the C11 sweep
     for (pl, classes, silent) in rng.sample(bad, 12):
         if ' loadstr ' in pl or ' load ' in pl or ' save ' in pl:
